@@ -13,6 +13,7 @@
    engine makes - a generated move, or any 15-bit-or-not encoding IsPseudoLegal accepts (hash moves, UCI
    moves), legal or not - is undone exactly: the whole board record is equal to what it was. *)
 From Coq Require Import NArith ZArith List Bool.
+From Chess3 Require Import Proofs.LayoutNow.
 From Chess3 Require Import Base.Bits Model.Types Model.BoardDef Model.Board Model.Movegen Gen.Zobrist
   Spec.Chess Spec.Rep Spec.Applicable Spec.Play
   Proofs.BoardInv Proofs.UndoMove Proofs.PseudoApplicable Proofs.BoardExamples Proofs.Statements
@@ -81,9 +82,9 @@ Print Assumptions C03_reach.
    with its hypothesis [applicable_all] discharged) *)
 Theorem C03_legal_line_undone : forall z b0 ms, zob_w64 z ->
   Rep b0 -> valid (abs b0) = true -> legal_line z b0 ms ->
-  let '(b', st) := make_all z b0 (map OpMove ms) [] in undo_all z b' st = b0.
+  let '(b', st) := make_all gen_layout z b0 (map OpMove ms) [] in undo_all gen_layout z b' st = b0.
 Proof.
-  intros z b0 ms Hz HR HV HL. apply C03_nested_l; [exact HR|].
+  intros z b0 ms Hz HR HV HL. apply C03_nested_l; [exact generated_layout_ok|exact HR|].
   apply legal_line_applicable; assumption.
 Qed.
 Print Assumptions C03_legal_line_undone.
